@@ -38,6 +38,11 @@ type mapPrim struct {
 	keyParam int    // parameter index of the key, -1 if computed
 	del      bool
 	site     ssa.Instruction
+	// the primitive is self-contained: it takes the write lock of the object itself before the update (selfLocked) /
+	// it makes the write-and-search permission check on the object itself before the update (selfChecked). The
+	// obligation then lies inside the primitive (which the rules treat as a unit of its own), not at its callers.
+	selfLocked  bool
+	selfChecked bool
 }
 
 func (m mapPrim) id() string {
@@ -99,9 +104,44 @@ func entryMapUpdates(f *ssa.Function) []mapUpd {
 // computeMapPrims: fixed point over internal functions.
 func computeMapPrims(c *Config, a *lockAnalysis, pkgs map[string]bool) map[*ssa.Function][]mapPrim {
 	prims := map[*ssa.Function][]mapPrim{}
+	wr, lkp := openModeBit(c, "OpenWrite"), openModeBit(c, "OpenLookup")
+	// does f lock / check the object (given by a value of f) itself before instruction at?
+	selfOf := func(f *ssa.Function, obj ssa.Value, at ssa.Instruction) (locked, checked bool) {
+		key := a.canon(f, objKeyOf(obj).s)
+		eachCall(f, func(ci ssa.CallInstruction) {
+			fn := calleeFunc(ci)
+			if fn == nil || fn.Name() != "Lock" || !domInstr(ci, at) {
+				return
+			}
+			if r := callRecv(ci); r != nil {
+				if fa, ok := r.(*ssa.FieldAddr); ok && a.canon(f, objKeyOf(fa.X).s) == key {
+					locked = true
+				}
+				if a.canon(f, objKeyOf(r).s) == key {
+					locked = true
+				}
+			}
+		})
+		for _, fa := range factsAt(at.Block()) {
+			pc, truth, ok := permFact(fa)
+			if !ok || !truth {
+				continue
+			}
+			if m, isC := constInt(pc.mask); isC && wr > 0 && lkp > 0 && m&(wr|lkp) == wr|lkp && a.canon(f, objKeyOf(pc.recv).s) == key {
+				checked = true
+			}
+		}
+		return
+	}
 	add := func(f *ssa.Function, p mapPrim) bool {
-		for _, q := range prims[f] {
+		for i, q := range prims[f] {
 			if q.id() == p.id() {
+				// self-contained only if every site is
+				if (q.selfLocked && !p.selfLocked) || (q.selfChecked && !p.selfChecked) {
+					prims[f][i].selfLocked = q.selfLocked && p.selfLocked
+					prims[f][i].selfChecked = q.selfChecked && p.selfChecked
+					return true
+				}
 				return false
 			}
 		}
@@ -124,7 +164,8 @@ func computeMapPrims(c *Config, a *lockAnalysis, pkgs map[string]bool) map[*ssa.
 			if k.param < 0 {
 				continue
 			}
-			add(f, mapPrim{objParam: k.param, chain: k.chain, mapField: u.field, keyParam: paramIdxRaw(f, u.key), del: u.del, site: u.in})
+			sl, sc := selfOf(f, u.fa.X, u.in)
+			add(f, mapPrim{objParam: k.param, chain: k.chain, mapField: u.field, keyParam: paramIdxRaw(f, u.key), del: u.del, site: u.in, selfLocked: sl, selfChecked: sc})
 		}
 	}
 	for round := 0; round < 6; round++ {
@@ -151,7 +192,8 @@ func computeMapPrims(c *Config, a *lockAnalysis, pkgs map[string]bool) map[*ssa.
 						if p.keyParam >= 0 && p.keyParam < len(args) {
 							kp = paramIdxRaw(f, args[p.keyParam])
 						}
-						if add(f, mapPrim{objParam: k.param, chain: k.chain + p.chain, mapField: p.mapField, keyParam: kp, del: p.del, site: ci}) {
+						sl, sc := selfOf(f, args[p.objParam], ci)
+						if add(f, mapPrim{objParam: k.param, chain: k.chain + p.chain, mapField: p.mapField, keyParam: kp, del: p.del, site: ci, selfLocked: sl || p.selfLocked, selfChecked: sc || p.selfChecked}) {
 							changed = true
 						}
 					}
@@ -185,7 +227,20 @@ func c06CTA(rc *RuleCtx) {
 	pkgs := map[string]bool{"memfs": true, "orefafs": true}
 	prims := computeMapPrims(rc.C, a, pkgs)
 	for _, f := range a.funcs {
-		if f.Pkg == nil || !pkgs[pkgShort[f.Pkg.Pkg.Path()]] || !isEntryPoint(f) {
+		if f.Pkg == nil || !pkgs[pkgShort[f.Pkg.Pkg.Path()]] {
+			continue
+		}
+		selfUnit := false
+		for _, p := range prims[f] {
+			want := "children"
+			if pkgShort[f.Pkg.Pkg.Path()] == "orefafs" {
+				want = "nodes"
+			}
+			if p.selfLocked && p.mapField == want {
+				selfUnit = true // an unexported primitive with a critical section of its own: decided as a unit
+			}
+		}
+		if !isEntryPoint(f) && !selfUnit {
 			continue
 		}
 		if f.Signature.Recv() == nil {
@@ -226,7 +281,7 @@ func c06CTA(rc *RuleCtx) {
 					continue
 				}
 				for _, p := range prims[callee] {
-					if p.objParam >= len(args) {
+					if p.objParam >= len(args) || p.selfLocked {
 						continue
 					}
 					k := objKeyOf(args[p.objParam])
